@@ -568,8 +568,8 @@ Section Edits.
 
   Definition insert_pos (l : list A) (r : A) (at_index : option nat) (active : nat) : nat :=
     match at_index with
-    | Some (S k) => S k                                               (* `if at_index:` — 0 and None are falsy *)
-    | _ =>
+    | Some k => k                                                     (* `if at_index is not None:` *)
+    | None =>
         match last_in_problem (name_is (rname r)) active 0 0 l None with
         | Some i => S i
         | None =>
@@ -615,8 +615,21 @@ Section Edits.
         after_pos index (S i) tl (if cur <? index then S i else acc)
     end.
 
+  (* same number of records: next(it) if rec.name == name else rec *)
+  Fixpoint subst_named (n : text) (it : list A) (l : list A) : list A :=
+    match l with
+    | [] => []
+    | r :: tl =>
+        if name_is n r then match it with
+                            | x :: it' => x :: subst_named n it' tl
+                            | [] => subst_named n [] tl              (* StopIteration cannot happen: lengths are equal *)
+                            end
+        else r :: subst_named n it tl
+    end.
+
   (* None = ValueError from default_record_order.index(name) *)
   Definition replace_all (l : list A) (n : text) (new : list A) : option (list A) :=
+    if Nat.eqb (length new) (length (filter (name_is n) l)) then Some (subst_named n new l) else
     let (keep, first) := replace_all_go n new true l in
     if first then
       match index_of n order with
@@ -650,6 +663,36 @@ Section Edits.
   (* update.update_abbr_record at the level of the record list: the $ABBREVIATED records that are not kept are
      dropped (replace_all), then one new record per renamed eta is inserted (insert_record) *)
   Variable s_abbr : text.
+
+  (* update_abbr_record with its keep decision.  rmap = rec.translate_to_pharmpy_names() as (nonmem name, pharmpy name)
+     pairs; rv = rv_trans as (pharmpy name, nonmem name) pairs in dict order; mk creates '$ABBR REPLACE pp=nm' *)
+  Variable rmap : A -> list (text * text).
+  Fixpoint alookup_t (k : text) (d : list (text * text)) : option text :=
+    match d with
+    | [] => None
+    | (k', v) :: tl => if text_eqb k' k then Some v else alookup_t k tl
+    end.
+  Definition s_ETA_lpar : text := [69; 84; 65; 40]%N.      (* 'ETA(' *)
+  Definition abbr_keep (rv : list (text * text)) (r : A) : bool :=
+    forallb (fun p => (match alookup_t (snd p) rv with Some nm => text_eqb nm (fst p) | None => false end)
+                      || negb (is_prefix s_ETA_lpar (fst p))) (rmap r).
+  Definition rv_pop (rv : list (text * text)) (r : A) : list (text * text) :=
+    filter (fun kv => negb (existsb (fun p => text_eqb (snd p) (fst kv)) (rmap r))) rv.
+  Fixpoint abbr_scan (recs : list A) (rv : list (text * text)) : list A * list (text * text) :=
+    match recs with
+    | [] => ([], rv)
+    | r :: tl =>
+        if abbr_keep rv r then let (k, rv') := abbr_scan tl (rv_pop rv r) in (r :: k, rv')
+        else abbr_scan tl rv
+    end.
+  Definition update_abbr_record (l : list A) (rv : list (text * text)) (mk : text * text -> A) : option (list A) :=
+    let (keep, rv') := abbr_scan (get_records l s_abbr 0) rv in
+    match replace_all l s_abbr keep with
+    | Some l1 => Some (fold_left (fun acc kv => insert_record acc (mk kv) None 0) rv' l1)
+    | None => None
+    end.
+
+  (* the same with the keep decision and the new records as parameters *)
   Definition update_abbr (l : list A) (keep : A -> bool) (new : list A) : option (list A) :=
     match replace_all l s_abbr (filter keep (get_records l s_abbr 0)) with
     | Some l1 => Some (fold_left (fun acc r => insert_record acc r None 0) new l1)
@@ -814,10 +857,21 @@ Section SizesEdit.
   Variable rname : A -> text.
   Variable rid : A -> positive.
   Variable order : list text.
-  (* update_sizes on the record list: `if len(str(sizes)) > 7` <-> some option is set *)
-  Definition update_sizes_records (l : list A) (needed : bool) (new : A) : list A :=
-    match get_records A rname l s_SIZES 0 with
-    | [] => if needed then insert_record A rname order l new None 0 else l
-    | r0 :: _ => if needed then replace_records A rid l [r0] [new] else l
+  (* update_sizes on the record list: `if len(str(sizes)) > 7` <-> some option is set.  The existing record is looked
+     for among ALL records (it precedes $PROBLEM); a new one goes before the first $PROBLEM.
+     None = ValueError from names.index('PROBLEM') *)
+  Fixpoint first_named (n : text) (i : nat) (l : list A) : option nat :=
+    match l with
+    | [] => None
+    | r :: tl => if name_is A rname n r then Some i else first_named n (S i) tl
+    end.
+  Definition update_sizes_records (l : list A) (needed : bool) (new : A) : option (list A) :=
+    match filter (name_is A rname s_SIZES) l with
+    | [] => if needed then match first_named s_PROBLEM 0 l with
+                           | Some i => Some (insert_record A rname order l new (Some i) 0)
+                           | None => None
+                           end
+            else Some l
+    | r0 :: _ => if needed then Some (replace_records A rid l [r0] [new]) else Some l
     end.
 End SizesEdit.
